@@ -376,6 +376,8 @@ def run(ctx):
     check_precision_changers(ctx, F)
     check_heads_closed(ctx, F)
     check_marker_sentinel(ctx, F)
+    import props.C04 as c04
+    c04.check_top_word_nonzero(ctx, F, method_of(F, 'from_compressed'), CHAIN + '::from_compressed', 'into_compressed')
     check_head_guards(ctx, F)
     if ctx.tier == 'thorough':
         from vlib import witness
